@@ -14,8 +14,17 @@
 //!   raw <target> <fake>                       when_called_unchecked(..).will_execute_raw_unchecked(..)
 //!   bool <target> <0|1>                       when_called(sig "fn() -> bool").will_return_boolean(v)
 //!   call <id> <expected>                      call it, compare rax
+//!   callregs <id> <expected>                  call through an asm probe with sentinels in rbx, rbp, r12-r15 and
+//!                                             1..6 in the argument registers; result, rsp and all sentinels checked
 //!   bytes <id>                                16 entry bytes equal to the snapshot taken at creation
 //!   maps                                      number of rwx anonymous mappings equals the count at start
+//!   boolsig <target> <hex of signature>       will_return_boolean on a target recorded with that signature text:
+//!                                             must be REFUSED (panic) - acceptance is the mismatch
+//!   sigpair <target> <fake> <hexA> <hexB>     will_execute_raw with recorded signatures A (target) / B (replacement):
+//!                                             must be refused iff A != B
+//!   relife <N> <k1>                           a helper containing fake!(.., times: N) is evaluated in two lifetimes;
+//!                                             k1 calls in the first (its verdict is ignored), exactly N in the second,
+//!                                             which must admit them all and exit silently
 //!   thread_panic <target> <fake>              in a NEW thread: create an injector, install raw, call, panic!()
 //!                                             (real unwinding with fakes installed); joined before the next op
 use injectorpp::interface::injector::*;
@@ -100,6 +109,45 @@ fn rwx_anon_count() -> usize {
 unsafe fn call(addr: usize) -> u64 {
     let f: extern "C" fn() -> u64 = std::mem::transmute(addr);
     f()
+}
+
+/// call `addr` with sentinels in the callee-saved registers; returns (rax, rbx, rbp, r12, r13, r14, r15, rsp delta)
+unsafe fn call_probe(addr: usize) -> [u64; 8] {
+    let mut out = [0u64; 8];
+    core::arch::asm!(
+        "push rbx", "push rbp", "push r12", "push r13", "push r14", "push r15",
+        "mov r10, rsp",
+        "push r10", "push r11",            // r11 = out pointer, keep both across the call on the stack
+        "mov rbx, 0xb0b0b0b000000001", "mov rbp, 0xb0b0b0b000000002", "mov r12, 0xb0b0b0b000000003",
+        "mov r13, 0xb0b0b0b000000004", "mov r14, 0xb0b0b0b000000005", "mov r15, 0xb0b0b0b000000006",
+        "mov rdi, 1", "mov rsi, 2", "mov rdx, 3", "mov rcx, 4", "mov r8, 5", "mov r9, 6",
+        "call rax",
+        "pop r11", "pop r10",
+        "mov [r11], rax", "mov [r11 + 8], rbx", "mov [r11 + 16], rbp", "mov [r11 + 24], r12",
+        "mov [r11 + 32], r13", "mov [r11 + 40], r14", "mov [r11 + 48], r15",
+        "mov rax, rsp", "sub rax, r10", "mov [r11 + 56], rax",
+        "pop r15", "pop r14", "pop r13", "pop r12", "pop rbp", "pop rbx",
+        inout("rax") addr => _, in("r11") out.as_mut_ptr(),
+        out("rdi") _, out("rsi") _, out("rdx") _, out("rcx") _, out("r8") _, out("r9") _, out("r10") _,
+        clobber_abi("sysv64"),
+    );
+    out
+}
+
+fn unhex(h: &str) -> &'static str {
+    let b: Vec<u8> = (0..h.len() / 2).map(|i| u8::from_str_radix(&h[2 * i..2 * i + 2], 16).unwrap_or(b'?')).collect();
+    Box::leak(String::from_utf8_lossy(&b).into_owned().into_boxed_str())
+}
+
+#[inline(never)]
+fn relife_target() -> bool {
+    std::hint::black_box(false)
+}
+static mut RELIFE_N: usize = 1;
+/// the SAME line of source builds the fake in every lifetime
+fn relife_setup(inj: &mut InjectorPP) {
+    inj.when_called(injectorpp::func!(relife_target, fn() -> bool))
+        .will_execute(injectorpp::fake!(func_type: fn() -> bool, returns: true, times: unsafe { RELIFE_N }));
 }
 
 fn run(scn: &str) -> i32 {
@@ -214,6 +262,56 @@ fn run(scn: &str) -> i32 {
                         return 3;
                     }
                 }
+                "boolsig" => {
+                    let t = funcs[w[1]];
+                    let sig = unhex(w[2]);
+                    let r = std::panic::catch_unwind(std::panic::AssertUnwindSafe(|| {
+                        let mut i2 = InjectorPP::new();
+                        i2.when_called(FuncPtr::new(t as *const (), sig)).will_return_boolean(true);
+                    }));
+                    println!("step {ln}: will_return_boolean on signature {sig:?}: {}", if r.is_err() { "refused" } else { "ACCEPTED" });
+                    if r.is_ok() {
+                        println!("MISMATCH at step {ln}: forced boolean accepted for signature {sig:?}");
+                        return 3;
+                    }
+                }
+                "sigpair" => {
+                    let (t, f) = (funcs[w[1]], funcs[w[2]]);
+                    let (a, b) = (unhex(w[3]), unhex(w[4]));
+                    let r = std::panic::catch_unwind(std::panic::AssertUnwindSafe(|| {
+                        let mut i2 = InjectorPP::new();
+                        i2.when_called(FuncPtr::new(t as *const (), a)).will_execute_raw(FuncPtr::new(f as *const (), b));
+                    }));
+                    println!("step {ln}: will_execute_raw target sig {a:?} replacement sig {b:?}: {}", if r.is_err() { "refused" } else { "accepted" });
+                    if (a != b) == r.is_ok() {
+                        println!("MISMATCH at step {ln}: signatures {a:?} / {b:?} were {}", if r.is_ok() { "accepted although they differ" } else { "refused although identical" });
+                        return 3;
+                    }
+                }
+                "relife" => {
+                    let n: usize = w[1].parse().unwrap();
+                    let k1: usize = w[2].parse().unwrap();
+                    RELIFE_N = n;
+                    let _ = std::panic::catch_unwind(std::panic::AssertUnwindSafe(|| {
+                        let mut i1 = InjectorPP::new();
+                        relife_setup(&mut i1);
+                        for _ in 0..k1 {
+                            let _ = std::panic::catch_unwind(|| relife_target());
+                        }
+                    }));
+                    let r = std::panic::catch_unwind(std::panic::AssertUnwindSafe(|| {
+                        let mut i2 = InjectorPP::new();
+                        relife_setup(&mut i2);
+                        for _ in 0..n {
+                            assert!(relife_target(), "admitted call returned the wrong value");
+                        }
+                    }));
+                    println!("step {ln}: second lifetime with exactly {n} call(s) after {k1} call(s) in the first: {}", if r.is_ok() { "quiet" } else { "PANICKED" });
+                    if r.is_err() {
+                        println!("MISMATCH at step {ln}: calls absorbed by the first installation counted toward the second");
+                        return 3;
+                    }
+                }
                 "thread_panic" => {
                     let t = funcs[w[1]];
                     let f = funcs[w[2]];
@@ -228,6 +326,26 @@ fn run(scn: &str) -> i32 {
                     println!("step {ln}: thread panicked while holding an injector: join is_err={}", r.is_err());
                     if r.is_ok() {
                         println!("MISMATCH at step {ln}: the thread did not panic");
+                        return 3;
+                    }
+                }
+                "callregs" => {
+                    let exp: u64 = w[2].parse().unwrap();
+                    let r = call_probe(funcs[w[1]]);
+                    println!("step {ln}: callregs {} -> rax={} rbx={:#x} rbp={:#x} r12={:#x} r13={:#x} r14={:#x} r15={:#x} rsp_delta={}", w[1], r[0], r[1], r[2], r[3], r[4], r[5], r[6], r[7] as i64);
+                    let want = [0xb0b0b0b000000001u64, 0xb0b0b0b000000002, 0xb0b0b0b000000003, 0xb0b0b0b000000004, 0xb0b0b0b000000005, 0xb0b0b0b000000006];
+                    if r[0] != exp {
+                        println!("MISMATCH at step {ln}: returned {} expected {exp}", r[0]);
+                        return 3;
+                    }
+                    for k in 0..6 {
+                        if r[1 + k] != want[k] {
+                            println!("MISMATCH at step {ln}: callee-saved register #{k} (rbx,rbp,r12..r15) is {:#x} after the faked call, the caller left {:#x}", r[1 + k], want[k]);
+                            return 3;
+                        }
+                    }
+                    if r[7] != 0 {
+                        println!("MISMATCH at step {ln}: stack pointer moved by {}", r[7] as i64);
                         return 3;
                     }
                 }
